@@ -1,3 +1,4 @@
+import DispTie
 from lib import TieCheck
 
 
@@ -6,10 +7,23 @@ class C17(TieCheck):
     area = "C17"
     props = "Props_C17.v"
     harness = "c17"
+    extra_props = list(DispTie.PROPS)   # redirect clause: gen_redirect_only_if_clean / _canonical about the regenerated ServeHTTP
     gentie = "C17"          # tie A: CleanPath / bufApp regenerated into coq/Gen/GenPath.v, proved equal to Model.v (docs/Gen.md)
     extra_trust = ["model: coq/C17/Model.v transliterates CleanPath/bufApp (path.go:26-157); spec: coq/C17/Spec.v",
                    "tie A: harness/cmd/gotrans translates CleanPath and bufApp into coq/Gen/GenPath.v on every run; coq/Gen/BridgeC17.v proves, for every input, that the generated code (real buffer with capacity, both branches of the stackBufSize threshold) returns Model.cleanpath p = clean_spec p (Props_Gen_C17.v); trusted: gotrans, coq/Gen/GoSem.v (sampled against the real slice operations)"]
+    extra_trust = extra_trust + [DispTie.TRUST]
     assumptions = ["Go strings are finite byte sequences; int arithmetic on lengths and indexes does not overflow (Z)"]
+
+    def gen(self, tier):
+        """redirect clause ("a trailing-slash redirect is only issued for canonical paths"): the caller of CleanPath,
+        Router.ServeHTTP, is regenerated into coq/Dispatch/GenServe.v and proved equal to Dispatch.serve_http."""
+        return DispTie.tie()
+
+    def run(self, tier, seed, replay=None):
+        try:
+            return super().run(tier, seed, replay)
+        finally:
+            DispTie.restore()   # a refused / unprovable GenServe.v must not break the builds of other checks
 
 
 CHECK = C17()
